@@ -404,4 +404,44 @@ package ddsketch
 //@   ensures carried: !(scaleFactor == 1.0 && mapping.MEq(s.IndexMapping, newMapping)) ==> fresh(result) && result.IndexMapping == newMapping && result.positiveValueStore == positiveStore && result.negativeValueStore == negativeStore && same(result.zeroCount, s.zeroCount)
 //@   modifies footprint(s), footprint(positiveStore), footprint(negativeStore)
 
-// The exact variant's ChangeMapping (caller-supplied store provider called twice) is not under contract.
+// Exact variant: the statistics of the result are a rescaled copy; the source's statistics and content are unchanged.
+// The store provider is a caller-supplied function: assumed to return fresh, valid, empty stores and to change nothing.
+//@ func DDSketchWithExactSummaryStatistics.ChangeMapping
+//@   serves C14 C10
+//@   requires EInv(s) && mapping.MapOK(newMapping) && finite(scaleFactor)
+//@   callback storeProvider results r
+//@   callback storeProvider ensures r != nil && fresh(r) && store.SInv(r) && footprintFresh(r)
+//@   callback storeProvider preserves everything()
+//@   ensures result != nil && fresh(result) && result.summaryStatistics != nil && fresh(result.summaryStatistics) && result.DDSketch != nil
+//@   ensures pure: EInv(s) && ESameStats(s) && s.DDSketch == old(s.DDSketch) && KSame(s.DDSketch)
+//@   ensures stats: same(result.summaryStatistics.count, s.summaryStatistics.count) && same(result.summaryStatistics.sum, s.summaryStatistics.sum * scaleFactor) && (scaleFactor > 0.0 ==> same(result.summaryStatistics.min, s.summaryStatistics.min * scaleFactor) && same(result.summaryStatistics.max, s.summaryStatistics.max * scaleFactor))
+//@   modifies everything()
+
+// ---------------------------------------------------------------- protobuf message form (message level, C09)
+// ToProto: the message carries the mapping's kind/base/offset, the zero weight, and for exact stores messages that
+// denote exactly the two contents; producing it changes nothing.
+//@ func DDSketch.ToProto
+//@   serves C09 C14
+//@   requires KInv(s)
+//@   ensures result != nil && fresh(result) && result.Mapping != nil && result.PositiveValues != nil && result.NegativeValues != nil
+//@   ensures zero: same(xf(result.ZeroCount), s.zeroCount)
+//@   ensures mapping: result.Mapping.Gamma == mapping.MGamma(s.IndexMapping) && result.Mapping.IndexOffset == mapping.MOffset(s.IndexMapping)
+//@   ensures positive: store.SExact(s.positiveValueStore) ==> (forall k int :: store.PBView(result.PositiveValues, k) == KPos(s, k))
+//@   ensures negative: store.SExact(s.negativeValueStore) ==> (forall k int :: store.PBView(result.NegativeValues, k) == KNeg(s, k))
+//@   ensures pure: KInv(s) && KSame(s)
+
+// FromProtoWithStoreProvider: the sketch rebuilt from a message has the message's zero weight, a mapping of the
+// message's kind/base/offset (or the message is refused), and exact stores whose content is what the two store
+// messages denote. The store provider is a caller-supplied function: assumed to return fresh, empty, valid stores.
+//@ pred PBAlloc(pb *sketchpb.Store) := (arr(pb.ContiguousBinCounts) == 0 || allocated(arr(pb.ContiguousBinCounts))) && (pb.BinCounts == nil || allocated(pb.BinCounts))
+//@ func FromProtoWithStoreProvider
+//@   serves C09
+//@   requires pb != nil && finite(xf(pb.ZeroCount)) && pb.ZeroCount >= 0.0 && (pb.PositiveValues != nil ==> store.PBOK(pb.PositiveValues) && PBAlloc(pb.PositiveValues)) && (pb.NegativeValues != nil ==> store.PBOK(pb.NegativeValues) && PBAlloc(pb.NegativeValues))
+//@   callback storeProvider results r
+//@   callback storeProvider ensures r != nil && fresh(r) && store.SInv(r) && footprintFresh(r) && store.STot(r) == 0.0 && (forall k int :: store.SView(r, k) == 0.0)
+//@   callback storeProvider preserves everything()
+//@   ensures refused: result1 != nil ==> result == nil
+//@   ensures built: result1 == nil ==> result != nil && fresh(result) && same(result.zeroCount, xf(pb.ZeroCount)) && result.IndexMapping != nil && pb.Mapping != nil && mapping.MGamma(result.IndexMapping) == pb.Mapping.Gamma && mapping.MOffset(result.IndexMapping) == pb.Mapping.IndexOffset
+//@   ensures positive: result1 == nil && store.SExact(result.positiveValueStore) ==> (forall k int :: KPos(result, k) == (pb.PositiveValues != nil ? store.PBView(pb.PositiveValues, k) : 0.0))
+//@   ensures negative: result1 == nil && store.SExact(result.negativeValueStore) ==> (forall k int :: KNeg(result, k) == (pb.NegativeValues != nil ? store.PBView(pb.NegativeValues, k) : 0.0))
+//@   modifies everything()
